@@ -106,7 +106,7 @@ namespace Givaro
         Element& init(Element& r, const uint64_t a) const;
         Element& init(Element& r, const Integer& a) const;
         template<typename T> Element& init(Element& r, const T& a) const
-        { r = Caster<Element>(a); return reduce(r); }
+        { return init(r, Caster<int64_t>(a)); }
 
         Element& assign(Element& r, const Element& a) const;
 
